@@ -586,7 +586,9 @@ bool load_replay(const std::string& path, Plan& plan, std::string& expected_cls,
 void warm_up_once()
 {
    static bool done = false;
-   if (done or g_warm_up == nullptr) return;
+   // not in the tsan flavour: there is no arena to protect, and a lazy initialisation that is not thread-safe must stay
+   // visible to the real-thread layer instead of being performed up front by one thread
+   if (done or g_warm_up == nullptr or not heap::available()) return;
    done = true;
    std::fflush(stdout);
    pid_t pid = fork();
